@@ -300,15 +300,26 @@ def rule_cache_flag_consistent(db: ProgramDB) -> List[Instance]:
     bo = db.cls("BinaryOperator")
     # helpers that store self._is_false_ into the cache
     storing = set()
-    for c in bo.all_subclasses():
+    inserts = 0
+    for c in [bo] + bo.all_subclasses():
         for m in c.methods.values():
+            if m.cls is not c:
+                continue
+            recv = _cache_receivers(db, m)
             for call in own_calls(m):
-                if call_attr(call) == "insert":
-                    for a in list(call.args) + [k.value for k in call.keywords]:
-                        if isinstance(a, ast.Attribute) and a.attr == "_is_false_":
-                            storing.add(m.name)
+                if call_attr(call) == "insert" and unparse(call.func.value) in recv:
+                    inserts += 1
+                    stored = call.args[1] if len(call.args) > 1 else next((k.value for k in call.keywords if k.arg == "output"), None)
+                    if isinstance(stored, ast.Attribute) and stored.attr == "_is_false_" and isinstance(stored.value, ast.Name) and stored.value.id == "self":
+                        storing.add(m.name)
+                    else:
+                        out.append(inst("CACHE-FLAG-CONSISTENT", VIOLATION, m, f"{m.short}[stored flag]",
+                                        f"`{unparse(call)[:70]}` stores `{unparse(stored) if stored is not None else 'nothing'}` with the row, not the "
+                                        f"node's truth flag `self._is_false_`: a cache hit replays the row with a flag it never had", line=call.lineno))
+    if not inserts:
+        raise AnalysisError("no result-cache write found on BinaryOperator")
     if not storing:
-        raise AnalysisError("no cache write that stores the node's _is_false_ flag found")
+        return out
     n = 0
     se = db.cls("SymbolicExpression")
     for c in se.all_subclasses():
@@ -344,6 +355,39 @@ def rule_cache_flag_consistent(db: ProgramDB) -> List[Instance]:
                                     line=call.lineno))
     if n == 0:
         raise AnalysisError("no cache-storing call site found in evaluation generators")
+    # read side: a replay loop `for row, flag in <cache>.retrieve(...)` that hands rows on sets the node's flag from the
+    # stored one before each row it yields
+    for c in [bo] + bo.all_subclasses():
+        for m in c.methods.values():
+            if not m.is_generator or m.cls is not c:
+                continue
+            for loop in [x for x in own_nodes(m.node) if isinstance(x, ast.For)]:
+                if not (isinstance(loop.iter, ast.Call) and call_attr(loop.iter) == "retrieve" and isinstance(loop.target, ast.Tuple)
+                        and len(loop.target.elts) == 2 and isinstance(loop.target.elts[1], ast.Name)):
+                    continue
+                flag = loop.target.elts[1].id
+                cfg = CFG(m)
+                head = [nd for nd in cfg.nodes if nd.kind == "for" and nd.stmt is loop]
+                if not head:
+                    continue
+                for y in [nd for nd in cfg.nodes if nd.has_yield and nd.ast is not None and any(x is nd.ast or True for x in [0])
+                          and any(st is nd.stmt or any(z is nd.stmt for z in ast.walk(st)) for st in loop.body)]:
+                    yv = next((x for x in ast.walk(y.ast) if isinstance(x, ast.Yield)), None)
+                    if yv is None or yv.value is None:
+                        continue
+                    if flag in {z.id for z in ast.walk(yv.value) if isinstance(z, ast.Name)}:
+                        continue       # the flag travels with the row: the consumer decides
+
+                    def sets_flag(nd: Node) -> bool:
+                        a = nd.ast
+                        return nd.kind == "stmt" and isinstance(a, ast.Assign) and isinstance(a.value, ast.Name) and a.value.id == flag and any(
+                            isinstance(t, ast.Attribute) and t.attr == "_is_false_" and isinstance(t.value, ast.Name) and t.value.id == "self"
+                            for t in a.targets)
+                    p = cfg.find_path(head[0].id, lambda nd: nd.id == y.id, kinds=("n",), blocked=sets_flag)
+                    out.append(inst("CACHE-FLAG-CONSISTENT", HOLDS if p is None else VIOLATION, m, f"{m.short}[replayed row carries its flag]",
+                                    f"`self._is_false_ = {flag}` precedes every replayed row" if p is None else
+                                    f"a row replayed from the cache is handed on without `self._is_false_` being set from the stored flag "
+                                    f"`{flag}`: the parent reads the flag of whatever row was produced before", line=y.lineno))
     return out
 
 
